@@ -41,7 +41,7 @@ enum { C_OK, C_NONLIN, C_LIVELOCK, C_NEIGHBOUR, C_CRASH };
 static const char *clsname[] = {"ok", "not-linearizable", "livelock", "neighbour-clobbered", "crash"};
 
 typedef struct { short op, obj; long a, b; } POp;
-typedef struct { int group; int size; int adjacent; unsigned char init[MAXSTATE]; } PObj;
+typedef struct { int group; int size; int adjacent; int local; unsigned char init[MAXSTATE]; } PObj;
 typedef struct { short x; int k; short y; } Pre;
 typedef struct {
   int build, nobj, nthreads;
@@ -98,6 +98,7 @@ static char site_kind(long s) {
 static const char *site_text(long s) {
   if (s == -1) return "(between operations)";
   if (s == -2) return "(thread finished)";
+  if (s == -3) return "(owner waits for the other threads before its frame dies)";
   if (s >= sim_sites_pic_base && s < sim_sites_pic_base + sim_sites_pic_n) return sim_site_text_pic[s - sim_sites_pic_base];
   if (s >= sim_sites_cc_base && s < sim_sites_cc_base + sim_sites_cc_n) return sim_site_text_cc[s - sim_sites_cc_base];
   return "?";
@@ -159,7 +160,8 @@ static char stacks[MAXT][STACKSZ] __attribute__((aligned(64)));
 static int cur = -1;
 static const Plan *P;
 static Result *R;
-static int done[MAXT], lcount[MAXT], inflight[MAXT], pending_window[MAXT], loaded_in_op[MAXT];
+static int done[MAXT], blocked[MAXT], lcount[MAXT], inflight[MAXT], pending_window[MAXT], loaded_in_op[MAXT];
+static int own_k; // next operation of the owner thread (automatic-storage plans)
 static unsigned stamp;
 static int phase, quantum, samerun, verbose;
 static int prio[MAXT], pct_cp[4], pct_low;
@@ -172,13 +174,13 @@ static unsigned char arena[1024] __attribute__((aligned(64)));
 
 static int runnable_count(void) {
   int n = 0;
-  for (int t = 0; t < P->nthreads; t++) n += !done[t];
+  for (int t = 0; t < P->nthreads; t++) n += !done[t] && !blocked[t];
   return n;
 }
 static int next_runnable_after(int t) {
   for (int i = 1; i <= P->nthreads; i++) {
     int c = (t + i) % P->nthreads;
-    if (!done[c]) return c;
+    if (!done[c] && !blocked[c]) return c;
   }
   return -1;
 }
@@ -187,14 +189,19 @@ static int nth_runnable(int n) {
   if (!cnt) return -1;
   n %= cnt;
   for (int t = 0; t < P->nthreads; t++)
-    if (!done[t] && n-- == 0) return t;
+    if (!done[t] && !blocked[t] && n-- == 0) return t;
   return -1;
 }
 
 // decides who executes next; kind: site kind, 'B' between operations, 'E' thread end
 static int choose(char kind) {
-  int me = cur, me_ok = !done[me];
-  if (runnable_count() == 0) return -1;
+  int me = cur, me_ok = !done[me] && !blocked[me];
+  if (runnable_count() == 0) {
+    // only the owner of an automatic object may be left, waiting for the others to finish with it
+    for (int t = 0; t < P->nthreads; t++)
+      if (!done[t] && blocked[t]) { blocked[t] = 0; return t; }
+    return -1;
+  }
   if (phase == 1) { // drain: fair round-robin with a long quantum; interference stops for whoever runs
     if (!me_ok || ++quantum > DRAIN_QUANTUM) { quantum = 0; return next_runnable_after(me); }
     return me;
@@ -205,7 +212,7 @@ static int choose(char kind) {
       if (!pre_used[i] && P->pre[i].x == me && P->pre[i].k == lcount[me]) {
         pre_used[i] = 1;
         int y = P->pre[i].y;
-        if (y >= 0 && y < P->nthreads && !done[y]) return y;
+        if (y >= 0 && y < P->nthreads && !done[y] && !blocked[y]) return y;
         return nth_runnable(y < 0 ? 0 : y);
       }
     return me_ok ? me : nth_runnable(0);
@@ -233,7 +240,7 @@ static int choose(char kind) {
     if (samerun > 400 && me_ok) { prio[me] = pct_low--; samerun = 0; } // a spinning thread yields the CPU eventually
     int best = -1;
     for (int t = 0; t < P->nthreads; t++)
-      if (!done[t] && (best < 0 || prio[t] > prio[best])) best = t;
+      if (!done[t] && !blocked[t] && (best < 0 || prio[t] > prio[best])) best = t;
     return best;
   }
   case S_STALL: {
@@ -250,7 +257,7 @@ static int choose(char kind) {
         if (!(y == v && v_blocked && runnable_count() > 1)) return y;
       }
       for (int t = 0; t < P->nthreads; t++)
-        if (!done[t] && t != v) return t;
+        if (!done[t] && !blocked[t] && t != v) return t;
       return nth_runnable(0);
     }
     return me;
@@ -312,7 +319,62 @@ void sim_yield_c(long site) {
   decision(site, site_kind(site));
 }
 
+// ---- automatic storage: thread 0 runs the owner function emitted by chibicc, which calls back here
+void sim_own_begin(void *ctx, void *obj) {
+  (void)ctx;
+  objaddr[0] = obj;
+  memcpy(obj, P->obj[0].init, P->obj[0].size);
+  for (int t = 1; t < P->nthreads; t++) blocked[t] = 0;
+}
+long sim_own_next(void *ctx, long *a, long *b) {
+  (void)ctx;
+  if (own_k >= P->nops[0]) return -1;
+  decision(-1, 'B');
+  const POp *o = &P->ops[0][own_k];
+  *a = o->a;
+  *b = o->b;
+  loaded_in_op[0] = 0;
+  R->r[0][own_k].inv = ++stamp;
+  inflight[0] = 0;
+  return optable[o->op].owncode;
+}
+void sim_own_done(void *ctx, long r, long b) {
+  (void)ctx;
+  const POp *o = &P->ops[0][own_k];
+  OpRes *q = &R->r[0][own_k];
+  inflight[0] = -1;
+  q->resp = ++stamp;
+  q->ret = r;
+  q->bout = b;
+  q->done = 1;
+  if (optable[o->op].cls == 4 && r == 0 && b != o->b) R->cas_fail_writeback++;
+  own_k++;
+}
+void sim_own_end(void *ctx) {
+  (void)ctx;
+  // the object dies with this frame: wait until nobody else uses it, then record its final value
+  int others = 0;
+  for (int t = 1; t < P->nthreads; t++) others += !done[t];
+  if (others) {
+    blocked[0] = 1;
+    decision(-3, 'B');
+  }
+  memcpy(R->final[0], objaddr[0], P->obj[0].size);
+}
+
 static void worker(int t) {
+  if (t == 0 && P->obj[0].local) {
+    const struct opinfo *oo = NULL;
+    for (int i = 0; i < group_n[P->obj[0].group]; i++) {
+      const struct opinfo *c = &optable[group_ops[group_first[P->obj[0].group] + i]];
+      if (c->storage == 7) { oo = c; break; }
+    }
+    own_k = 0;
+    oo->owner[P->build](NULL);
+    done[t] = 1;
+    decision(-2, 'E');
+    abort();
+  }
   for (int k = 0; k < P->nops[t]; k++) {
     decision(-1, 'B');
     const POp *o = &P->ops[t][k];
@@ -349,6 +411,10 @@ static void place_objects(const Plan *p) {
   int off = 64;
   for (int j = 0; j < p->nobj; j++) {
     const struct opinfo *o = &optable[group_ops[group_first[p->obj[j].group]]];
+    if (p->obj[j].local) {
+      objaddr[j] = NULL;
+      continue;
+    }
     if (o->addr[p->build]) {
       objaddr[j] = o->addr[p->build]();
       if (o->storage == 3 || o->storage == 4) { // neighbours of the same size on both sides
@@ -373,6 +439,7 @@ static int check_neighbours(const Plan *p, Result *r) {
   for (int j = 0; j < p->nobj; j++) {
     unsigned char *q = objaddr[j];
     const struct opinfo *o = &optable[group_ops[group_first[p->obj[j].group]]];
+    if (p->obj[j].local) continue;
     if (q >= arena && q < arena + sizeof arena)
       memset(owned + (q - arena), 1, p->obj[j].size);
     else if (o->storage == 3 || o->storage == 4)
@@ -488,7 +555,8 @@ static void run_plan(const Plan *p, Result *r) {
   phase = quantum = samerun = 0;
   stalled_until = 0;
   memset(pre_used, 0, sizeof(int) * (p->npre < MAXPRE ? p->npre : MAXPRE));
-  for (int t = 0; t < MAXT; t++) { done[t] = 1; lcount[t] = 0; inflight[t] = -1; pending_window[t] = 0; loaded_in_op[t] = 0; }
+  own_k = 0;
+  for (int t = 0; t < MAXT; t++) { done[t] = 1; blocked[t] = 0; lcount[t] = 0; inflight[t] = -1; pending_window[t] = 0; loaded_in_op[t] = 0; }
   if (p->strategy == S_PCT) {
     int perm[MAXT] = {0, 1, 2, 3};
     for (int i = MAXT - 1; i > 0; i--) { int j = below(i + 1), x = perm[i]; perm[i] = perm[j]; perm[j] = x; }
@@ -499,6 +567,7 @@ static void run_plan(const Plan *p, Result *r) {
   }
   for (int t = 0; t < p->nthreads; t++) {
     done[t] = 0;
+    blocked[t] = t > 0 && p->obj[0].local; // nobody can reach an automatic object before its owner publishes it
     getcontext(&ctx[t]);
     ctx[t].uc_stack.ss_sp = stacks[t];
     ctx[t].uc_stack.ss_size = STACKSZ;
@@ -523,6 +592,7 @@ static void run_plan(const Plan *p, Result *r) {
       first = 0;
       for (int t = 1; t < p->nthreads; t++) if (prio[t] > prio[first]) first = t;
     }
+    if (p->obj[0].local) first = 0; // the owner publishes the object before anybody can touch it
     r->pre[r->npre].x = -1; r->pre[r->npre].k = 0; r->pre[r->npre].y = first; r->npre++;
     cur = first;
     sim_active = 1;
@@ -531,7 +601,8 @@ static void run_plan(const Plan *p, Result *r) {
   sim_active = 0;
   cur = -1;
   if (r->cls) return;
-  for (int j = 0; j < p->nobj; j++) memcpy(r->final[j], objaddr[j], p->obj[j].size);
+  for (int j = 0; j < p->nobj; j++)
+    if (!p->obj[j].local) memcpy(r->final[j], objaddr[j], p->obj[j].size);
   if (check_neighbours(p, r)) { r->cls = C_NEIGHBOUR; return; }
   if (!check_linearizable(p, r)) {
     r->cls = C_NONLIN;
@@ -570,14 +641,16 @@ static void gen_init(PObj *o, int kind, int size, int domain) {
   }
 }
 
-static int usable_in_group(int g, unsigned clsmask) {
+// want_local: 1 = only the owner's by-name operations (storage 7), 0 = only the others
+static int usable_in_group2(int g, unsigned clsmask, int want_local) {
   int n = 0;
   for (int i = 0; i < group_n[g]; i++) {
     int op = group_ops[group_first[g] + i];
-    if (!excluded[op] && (clsmask >> optable[op].cls & 1)) n++;
+    if (!excluded[op] && (clsmask >> optable[op].cls & 1) && (optable[op].storage == 7) == want_local) n++;
   }
   return n;
 }
+static int usable_in_group(int g, unsigned clsmask) { return usable_in_group2(g, clsmask, 0); }
 
 static int maxops_env = 5, maxt_env = MAXT;
 
@@ -611,8 +684,11 @@ static int gen(Plan *p, uint64_t seed) {
     p->obj[j].group = g;
     p->obj[j].size = o->objsize;
     p->obj[j].adjacent = adjacent;
+    p->obj[j].local = 0;
     gen_init(&p->obj[j], tkind_of(o), o->objsize, domain);
   }
+  // automatic storage: one object owned by thread 0's frame, the other threads reach it through its address
+  if (p->nobj == 1 && usable_in_group2(p->obj[0].group, 0x1ff, 1) && below(3) == 0) p->obj[0].local = 1;
   int idx = 0;
   long used_a[MAXOBJ][MAXT * MAXOPS];
   int nused[MAXOBJ] = {0};
@@ -622,11 +698,12 @@ static int gen(Plan *p, uint64_t seed) {
     for (int k = 0; k < p->nops[t]; k++) {
       POp *o = &p->ops[t][k];
       int j = below(p->nobj), g = p->obj[j].group;
-      unsigned m = usable_in_group(g, clsmask) ? clsmask : 0x1ff;
-      int n = usable_in_group(g, m), pick = below(n), op = -1;
+      int wl = p->obj[j].local && t == 0;
+      unsigned m = usable_in_group2(g, clsmask, wl) ? clsmask : 0x1ff;
+      int n = usable_in_group2(g, m, wl), pick = below(n), op = -1;
       for (int i = 0; i < group_n[g]; i++) {
         int c = group_ops[group_first[g] + i];
-        if (!excluded[c] && (m >> optable[c].cls & 1) && pick-- == 0) { op = c; break; }
+        if (!excluded[c] && (m >> optable[c].cls & 1) && (optable[c].storage == 7) == wl && pick-- == 0) { op = c; break; }
       }
       if (op < 0) return -1;
       o->op = op;
@@ -673,7 +750,7 @@ static void print_plan(FILE *f, const Plan *p, int with_pre) {
           p->nobj, stratname[p->strategy], p->p_den, p->pct_d, p->stall_t, p->stall_k, p->stall_len, (unsigned long long)p->sched_seed);
   for (int j = 0; j < p->nobj; j++) {
     const struct opinfo *o = &optable[group_ops[group_first[p->obj[j].group]]];
-    fprintf(f, "obj %d %s size=%d adjacent=%d init=", j, o->name, p->obj[j].size, p->obj[j].adjacent);
+    fprintf(f, "obj %d %s size=%d adjacent=%d local=%d init=", j, o->name, p->obj[j].size, p->obj[j].adjacent, p->obj[j].local);
     hex(f, p->obj[j].init, p->obj[j].size);
     fprintf(f, " # %s\n", o->type);
   }
@@ -700,14 +777,15 @@ static int read_plan(FILE *f, Plan *p) {
       for (int i = 0; i < NSTRAT; i++) if (!strcmp(st, stratname[i])) p->strategy = i;
       if (p->nthreads < 1 || p->nthreads > MAXT || p->nobj < 1 || p->nobj > MAXOBJ) return -1;
     } else if (!strncmp(line, "obj ", 4)) {
-      int j, size, adj;
+      int j, size, adj, loc = 0;
       char hx[2 * MAXSTATE + 2] = "";
-      if (sscanf(line, "obj %d %63s size=%d adjacent=%d init=%64s", &j, s1, &size, &adj, hx) < 5) return -1;
+      if (sscanf(line, "obj %d %63s size=%d adjacent=%d local=%d init=%64s", &j, s1, &size, &adj, &loc, hx) < 6) return -1;
       int op = find_op(s1);
       if (op < 0 || j < 0 || j >= MAXOBJ || size > MAXSTATE) return -2;
       p->obj[j].group = optable[op].group;
       p->obj[j].size = size;
       p->obj[j].adjacent = adj;
+      p->obj[j].local = loc;
       for (int i = 0; i < size; i++) { unsigned v = 0; sscanf(hx + 2 * i, "%2x", &v); p->obj[j].init[i] = v; }
     } else if (!strncmp(line, "op ", 3)) {
       int t, j;
@@ -799,6 +877,7 @@ static void minimise(Plan *p, const Result *r0, int cls) {
   while (progress) {
     progress = 0;
     for (int t = best.nthreads - 1; t >= 0 && best.nthreads > 1; t--) {
+      if (t == 0 && best.obj[0].local) continue;
       cand = best;
       drop_thread(&cand, t);
       cand.npre = 0;
@@ -812,7 +891,8 @@ static void minimise(Plan *p, const Result *r0, int cls) {
         if (total <= 1) break;
         cand = best;
         drop_op(&cand, t, k);
-        if (cand.nops[t] == 0 && cand.nthreads > 1) drop_thread(&cand, t);
+        if (cand.nops[t] == 0 && t == 0 && cand.obj[0].local) { /* the owner may have nothing to do but publish */ }
+        else if (cand.nops[t] == 0 && cand.nthreads > 1) drop_thread(&cand, t);
         else if (cand.nops[t] == 0) continue;
         if (still_fails(&cand, cls, search)) { best = cand; progress = 1; if (t >= best.nthreads) break; }
       }
@@ -963,6 +1043,7 @@ static int seqdiff(const char *exclout) {
         p.nobj = 1;
         p.obj[0].group = o->group;
         p.obj[0].size = o->objsize;
+        p.obj[0].local = o->storage == 7;
         int domain = s % 4;
         gen_init(&p.obj[0], tkind_of(o), o->objsize, domain);
         p.nops[0] = 1;
@@ -1067,7 +1148,7 @@ int main(int argc, char **argv) {
     long first = atol(argv[3]), count = atol(argv[4]);
     long runs = 0, viol = 0, steps = 0, switches = 0, windows = 0, nontriv = 0, msteps = 0, casfail = 0, drained = 0, stallf = 0, pctf = 0,
          ops = 0, minimised = 0, sampled_distinct = 0;
-    long by_strat[NSTRAT] = {0}, by_threads[MAXT + 1] = {0}, by_cls[9] = {0}, by_storage[7] = {0}, by_build[2] = {0}, by_viol[5] = {0};
+    long by_strat[NSTRAT] = {0}, by_threads[MAXT + 1] = {0}, by_cls[9] = {0}, by_storage[8] = {0}, by_build[2] = {0}, by_viol[5] = {0};
     for (long i = first; i < first + count; i++) {
       uint64_t seed = mixseed(master, i);
       if (gen(&p, seed)) continue;
@@ -1098,8 +1179,8 @@ int main(int argc, char **argv) {
     for (int t = 1; t <= MAXT; t++) printf(" threads_%d=%ld", t, by_threads[t]);
     static const char *cn[] = {"compound", "incdec", "fetch", "xchg", "cas", "load", "store", "flag", "algo"};
     for (int c = 0; c < 9; c++) printf(" opclass_%s=%ld", cn[c], by_cls[c]);
-    static const char *sn[] = {"ptr", "member", "global", "gmember", "garray", "algo", "local"};
-    for (int c = 0; c < 7; c++) printf(" storage_%s=%ld", sn[c], by_storage[c]);
+    static const char *sn[] = {"ptr", "member", "global", "gmember", "garray", "algo", "nested", "automatic"};
+    for (int c = 0; c < 8; c++) printf(" storage_%s=%ld", sn[c], by_storage[c]);
     printf(" build_default=%ld build_pic=%ld", by_build[0], by_build[1]);
     for (int c = 1; c < 5; c++) printf(" viol_%s=%ld", clsname[c], by_viol[c]);
     printf("\n");
